@@ -6,7 +6,7 @@ from simkit.program import Cfg, gen_program
 from simkit import lifecycle as lc
 
 ID = "C02"
-RUNS = {"quick": 250_000, "thorough": 3_000_000}
+RUNS = {"quick": 170_000, "thorough": 3_000_000}
 SIM_TIME_UNIT = "scripted user operations executed"
 RULE = (
     "each run = one generated program (cleanups registered from setUp before/after the upcall, the test "
